@@ -10,6 +10,9 @@ BUILT = {
     'C05': ('exhaustive enumeration of finite flag/ALU tables and of a bounded state alphabet per opcode slot, on the real simulators against a reference model',
             'Every (A, operand, carry/F) entry of every 8-bit ALU/rotate/BIT/INC/DEC/DAA/NEG/CPL/SCF/CCF/RLD/RRD table, and every opcode slot x operand fillings x one-at-a-time boundary deviations of every register/pair/T/IFF/IM from 2 base states x PC/SP wrap points, executed on all four simulator implementations and compared (registers, masked F, PC, T, ports, whole memory) with an independent reference model.',
             'Trusted: mc/refs/z80ref.py (flags from arithmetic definitions, timing from machine cycles), CPython, gcc. Undocumented flag bits that depend on Q/MEMPTR or on a repeating block instruction are masked. Register values outside the boundary alphabets are not covered for 16-bit and memory-addressed forms.'),
+    'C06': ('explicit-state breadth-first search over instruction sequences (stateful alphabet, then every opcode slot) on the real paired implementations; all static programs up to a length under run() with the interrupt swept over every boundary',
+            'Differential model checking of the Python and freshly built C simulators (plain pair and contended pair; 48K and 128K memory; tracer present/absent): breadth-first search from boundary states where every transition executes one letter of a stateful alphabet (prefixes, EI/DI/HALT/IM, I/R loads, exchanges, stack at the ROM edge, repeating block instructions, paging writes incl. lock, self-modifying stores, 64K wrap jumps, interrupt delivery) and the last level executes every opcode slot filling; after every instruction all 30 registers, the whole memory (all banks and ROMs), latch/paged banks, port log and tracer state must be identical. Plus all static programs of <= 2 letters under run(start, stop, interrupts) with IM 1/IM 2 and the frame interrupt swept across the program, and step-by-step == single run.',
+            'No reference model: purely differential. 128K without a tracer is explored only without port writes (no tool runs that configuration). Programs longer than the depth bound and states not reachable from the 4 boundary states within it are not covered. Trusted: CPython, gcc, the harness-side store log (list subclass) used for cheap whole-memory comparison.'),
     'C07': ('exhaustive enumeration of a finite table space against a reference model (explicit-state, on the real code)',
             'Complete enumeration of the finite opcode-slot space (1792 slots x 2 operand fillings x 5 addresses x 10 additional-opcode settings x wrap) on the real decoders, timing table and all four simulators, against an independent algorithmic reference decoder.',
             'Trusted: mc/refs/z80ref.py (reference decoder/timing from the Zilog manual), CPython, gcc. Operand bytes beyond two fillings per slot are covered by C02.'),
